@@ -53,7 +53,7 @@ pub fn show_syms(s: &[u32]) -> String {
     }
 }
 
-fn show_case(c: &DocCase) -> String {
+pub(crate) fn show_case(c: &DocCase) -> String {
     let b = if c.boundaries.len() <= 24 {
         format!("{:?}", c.boundaries)
     } else {
@@ -62,7 +62,7 @@ fn show_case(c: &DocCase) -> String {
     format!("text[{}]={} boundaries={}", c.text.len(), show_syms(&c.text), b)
 }
 
-fn construct<D: Document>(text: &[u32], boundaries: &[usize]) -> Result<Vec<u8>, scrunch::Error> {
+pub(crate) fn construct<D: Document>(text: &[u32], boundaries: &[usize]) -> Result<Vec<u8>, scrunch::Error> {
     let mut buf = Vec::new();
     let mut builder = Builder::new(&mut buf);
     D::construct(text.to_vec(), boundaries.to_vec(), &mut builder)?;
@@ -100,7 +100,7 @@ fn offsets_to_probe(c: &DocCase) -> Vec<usize> {
 }
 
 /// Compare every `Document` query of `d` with the naive scan.  `tag` names the implementation.
-fn check_queries<D: Document>(tag: &str, d: &D, c: &DocCase, m: &Model, expect: &[Vec<usize>], o: &mut Outcome) {
+pub(crate) fn check_queries<D: Document>(tag: &str, d: &D, c: &DocCase, m: &Model, expect: &[Vec<usize>], o: &mut Outcome) {
     let n = c.text.len();
     let recs = c.boundaries.len();
     if d.len() != n {
@@ -285,7 +285,7 @@ fn records_class(r: usize) -> &'static str {
 }
 
 /// Labels and the non-trivial rule shared by both document parts.
-fn describe(c: &DocCase, expect: &[Vec<usize>], valid: bool, o: &mut Outcome) {
+pub(crate) fn describe(c: &DocCase, expect: &[Vec<usize>], valid: bool, o: &mut Outcome) {
     let distinct = distinct_symbols(&c.text);
     o.label(format!("text:{}", c.class));
     o.label(format!("alphabet-family:{}", c.alpha));
@@ -302,11 +302,28 @@ fn describe(c: &DocCase, expect: &[Vec<usize>], valid: bool, o: &mut Outcome) {
         o.label("uses-symbol-u32::MAX");
     }
     if !valid {
+        match c.bclass.as_str() {
+            "invalid-duplicate" => o.label("empty-record(must-be-refused)"),
+            "invalid-boundary-at-len" => o.label("empty-last-record:boundary-at-text-end(must-be-refused)"),
+            _ => {}
+        }
         return;
     }
     o.label(format!("records:{}", records_class(c.boundaries.len())));
+    // Record-boundary classes (each label counts cases, not occurrences).
+    let n = c.text.len();
+    let b = &c.boundaries;
+    let last_len = n - b[b.len() - 1];
+    o.label(if last_len == 1 { "last-record:1-symbol" } else { "last-record:>=2-symbols" });
+    if b.len() >= 2 && b[1] == 1 {
+        o.label("first-record:1-symbol");
+    }
+    o.label(if n <= 1500 { "lookup-probed:every-offset" } else { "lookup-probed:stride+record-starts,ends,neighbours" });
+    let record_of = |p: usize| b.partition_point(|x| *x <= p) - 1;
+    let record_end = |r: usize| if r + 1 < b.len() { b[r + 1] } else { n };
     let mut many = false;
     let mut none = false;
+    let mut seen = [false; 6];
     for (nd, e) in c.needles.iter().zip(expect.iter()) {
         let occ = match e.len() {
             0 => "0",
@@ -317,12 +334,31 @@ fn describe(c: &DocCase, expect: &[Vec<usize>], valid: bool, o: &mut Outcome) {
         o.label(format!("needle:{}:occ={}", nd.kind, occ));
         many |= e.len() >= 2 && !nd.syms.is_empty();
         none |= e.is_empty();
-        if nd.syms.len() >= 2 && !e.is_empty() {
-            // does some occurrence straddle a record boundary?
-            let m = nd.syms.len();
-            if e.iter().any(|p| c.boundaries.iter().any(|b| *b > *p && *b < *p + m)) {
-                o.label("needle-occurrence-crosses-record-boundary");
+        let m = nd.syms.len();
+        if m >= 1 {
+            for p in e.iter().take(4000) {
+                let (r0, r1) = (record_of(*p), record_of(*p + m - 1));
+                let at_start = b[r0] == *p;
+                let at_end = record_end(r1) == *p + m;
+                seen[0] |= r1 > r0;
+                seen[1] |= r1 > r0 + 1;
+                seen[2] |= at_start;
+                seen[3] |= at_end;
+                seen[4] |= at_start && at_end && r0 == r1;
+                seen[5] |= *p + m == n && r1 > r0;
             }
+        }
+    }
+    for (hit, name) in seen.iter().zip([
+        "needle-occurrence-crosses-record-boundary",
+        "needle-occurrence-crosses>=2-record-boundaries",
+        "needle-occurrence-starts-at-record-start",
+        "needle-occurrence-ends-at-record-end",
+        "needle-occurrence-is-exactly-one-record",
+        "needle-occurrence-crosses-a-boundary-and-reaches-text-end",
+    ]) {
+        if *hit {
+            o.label(name);
         }
     }
     o.nontrivial = c.boundaries.len() >= 2 && many && none;
